@@ -428,7 +428,15 @@ func RunC16(env *Env, rep *Report) {
 	}
 	cases = append(cases, c16Case("script", "atom"), c16Case("data", "backslash"))
 	if env.Tier == "thorough" {
-		cases = append(cases, c16Case("data", "atom"), c16Case("script", "backslash"), c16Case("raw-next-line", "atom"))
+		// every program under every kind of path
+		for _, kind := range []string{"script", "autovar", "data", "raw-same-line", "raw-next-line", "raw-empty", "raw-blank", "raw-crlf"} {
+			for _, pk := range []string{"atom", "backslash"} {
+				if (kind == "script" && pk == "atom") || (kind == "data" && pk == "backslash") {
+					continue // already in the quick list
+				}
+				cases = append(cases, c16Case(kind, pk))
+			}
+		}
 	}
 	rep.Technique = "symbolic execution of the real emitter's line-marker paths (go/ssa) with symbolic line numbers (a strictly increasing symbolic map of the rendered lines) and a symbolic input path; assertions on the marker lines decided by the solver (z3 LIA + seq)"
 	rep.Explanation = "Bounded symbolic verification, not a proof. Programs containing every construct that gets a marker (commands, labels, flag/var/defeated operands in if/elif/while/do-while, switch operand and cases, autovar conditions and switches, text statements and inline text, movement statements, steps and hoisted moves(), marts and items, map-script entries and table rows, raw blocks with the backtick on the keyword's line or the next) are compiled by symbolic execution with every token's line number replaced by L(k), an increasing symbolic function of the rendered line k with L(1)>=1 and L(last)<=N - i.e. any number of blank or comment lines anywhere; for the script and autovar programs L is only non-decreasing, so any run of consecutive constructs may also be written on one source line - and with the input path a symbolic string, a path with backslashes, or empty. Asserted: (1) the -lm output without its marker lines equals the -lm=false output line by line; (2) every marker has the form '# n \"path\"' with the given path (backslashes doubled), 1<=n<=N valid under the path condition, and n = L(k) for the source line k of the construct that follows it (validity queries to the solver); (3) with an empty path there are no markers."
